@@ -14,6 +14,9 @@ import argparse, json, os, re, subprocess, sys, threading, time, queue, shutil, 
 VERIF = os.path.dirname(os.path.dirname(os.path.abspath(__file__)))
 REPO = "/repo"
 ENV = dict(os.environ, GOFLAGS="-mod=mod", GOPROXY="off")
+# the repository's tests keep cluster state under os.UserCacheDir()/emitter/<node>: give every test run its own cache
+# home (concurrent runs corrupt the shared ban.db otherwise) while keeping the shared Go build cache
+GOCACHE = subprocess.run(["go", "env", "GOCACHE"], capture_output=True, text=True, env=ENV).stdout.strip() or "/root/.cache/go-build"
 COST = {"C20": 2, "C13": 3, "C03": 4, "C16": 4, "C08": 6, "C11": 8, "C19": 9, "C17": 10, "C18": 11, "C10": 15, "C09": 17,
         "C12": 17, "C07": 28, "C04": 32, "C14": 38, "C15": 47, "C01": 49, "C02": 50, "C06": 56, "C05": 96}
 
@@ -113,9 +116,12 @@ def main():
                     # own network namespace: the broker tests listen on fixed ports (4000, 8080) and would collide
                     # with every other test run on this machine; one retry absorbs load-sensitive tests (TestTimeout)
                     tcmd = ["unshare", "-n", "--", "sh", "-c", "ip link set lo up; exec go test -vet=off -count=1 -timeout 150s " + " ".join(pk)]
-                    rc, out = sh(tcmd, cwd=wt, timeout=400)
+                    tenv = dict(ENV, GOCACHE=GOCACHE, XDG_CACHE_HOME=bd + "-xdg")
+                    shutil.rmtree(bd + "-xdg", ignore_errors=True); os.makedirs(bd + "-xdg", exist_ok=True)
+                    rc, out = sh(tcmd, cwd=wt, env=tenv, timeout=400)
                     if rc != 0:
-                        rc2, out2 = sh(tcmd, cwd=wt, timeout=400)
+                        shutil.rmtree(bd + "-xdg", ignore_errors=True); os.makedirs(bd + "-xdg", exist_ok=True)
+                        rc2, out2 = sh(tcmd, cwd=wt, env=tenv, timeout=400)
                         if rc2 == 0 or len(out2) < len(out):
                             rc, out = rc2, out2
                     fails = [l for l in out.split("\n") if l.startswith("--- FAIL") or l.startswith("panic:") or l.startswith("FAIL")]
@@ -152,7 +158,7 @@ def main():
                     outf.write(json.dumps(rec) + "\n"); outf.flush()
                     print("[w%d] %s:%d #%d %s %s -> %s %s" % (i, f, line, mid, op, desc[:50], rec["status"], rec.get("killed_by", "")), flush=True)
         finally:
-            sh(["git", "-C", REPO, "worktree", "remove", "--force", wt]); shutil.rmtree(wt, ignore_errors=True); shutil.rmtree(bd, ignore_errors=True)
+            sh(["git", "-C", REPO, "worktree", "remove", "--force", wt]); shutil.rmtree(wt, ignore_errors=True); shutil.rmtree(bd, ignore_errors=True); shutil.rmtree(bd + "-xdg", ignore_errors=True)
 
     ths = [threading.Thread(target=worker, args=(i,)) for i in range(a.workers)]
     for t in ths: t.start()
